@@ -3,6 +3,7 @@ package props
 import (
 	"bytes"
 	"fmt"
+	"math/big"
 	"reflect"
 	"unsafe"
 
@@ -597,11 +598,17 @@ func (s *c15) Check() *kit.Violation {
 		if !bytes.Equal(pk.SerializeCompressed(), m.PubKey()) {
 			return bad("ECPubKey", "public key %x, model %x", pk.SerializeCompressed(), m.PubKey())
 		}
+		// the returned object is the caller's: callers tweak such keys in
+		// place; the extended key must not be affected
+		pk.X.Add(pk.X, big.NewInt(1))
+		pk.Y.SetInt64(7)
 		if m.Private {
 			sk, err := h.real.ECPrivKey()
 			if err != nil || !bytes.Equal(leftPad32(sk.D.Bytes()), leftPad32(m.Key)) {
 				return bad("ECPrivKey", "private scalar differs from the model's (err %v)", err)
 			}
+			sk.D.SetInt64(3) // the caller's object, see above
+			sk.PublicKey.X.SetInt64(5)
 		}
 	}
 	// derivation behaviour: one live handle per step (rotating) derives a probe child
